@@ -11,7 +11,7 @@ from runner import ddmin_ops
 
 THEOREMS = 'IsoTp.Props.C01'
 RULE = ('two real layers with mirrored (symmetric or asymmetric) random addresses joined by FIFO links; message lists of 1-4 payloads '
-        'with lengths at every SF/FF/CF boundary of the sender configuration, the 4095/4096 boundary and large sizes; random '
+        'with lengths at every SF/FF/CF boundary of the sender configuration, the 4095/4096 boundary and large sizes (a few beyond 64 KiB); random '
         'tx_data_length/min_length/padding/blocksize/stmin on both sides; schedules from one-frame-per-call to whole-queue-per-call with '
         'virtual time advancing below the timeouts. Oracle: receiver recv() results == sent payloads in order, no error on either side, '
         'every request completed successfully. The recorded run is replayed on the extracted Coq model and every line compared. '
@@ -350,6 +350,13 @@ def run_shard(campaign, shard, nshards, seed, tier):
         big = True
     for i in range(n):
         A, B, msgs, sched = gen_scenario(rng, tier, big)
+        if big and i == 0 and (shard % 4 == 0 or not quick):
+            # beyond 64 KiB: every byte of the 32-bit length of the First Frame matters (largest link-layer size, no pacing)
+            A['params'].update(tx_data_length=64, can_fd=True)
+            A['params'].pop('tx_data_min_length', None)
+            B['params'].update(blocksize=0, stmin=0, max_frame_size=10**6)
+            msgs = [bytes(rng.getrandbits(8) for _ in range(rng.choice([65536, 65537, 66000, 70000, 131072 + 5])))]
+            sched = 'rr'
         pr = run_transfer(rng, A, B, msgs, sched)
         part.hist('mode', A['txa']['mode'] + ('/asym' if A.get('rxa') else ''))
         part.hist('tx_dl', A['params'].get('tx_data_length', 8))
